@@ -204,6 +204,8 @@ class Runner:
             w.add(op["ver"], op["ck"], op["inserts"], op["fail_at"])
             self.sync_dir()
             top = op["ver"] == max(w.ever)
+            if op["ck"]:
+                ctx.count("checkpoint-directive-on-header-line:%d" % (len(L.CK_HEADERS[int(op["ver"]) % len(L.CK_HEADERS)])))
             ctx.count("op:add-%s%s%s" % ("checkpoint" if op["ck"] else "file", "-on-top" if top else "-out-of-order", "-failing" if op["fail_at"] else ""))
         elif name == "fix":
             w.fix(op["ver"])
@@ -248,6 +250,8 @@ class Runner:
         if rc != 0:
             self.viol("set|class|model=ok|real=" + cls, "`migrate set %s` fails: rc=%d %s" % (v, rc, se.strip()[:300]))
         before = w.rev_rows()
+        if w.revs and v > max(w.revs) and any(f < max(w.revs) and f not in w.revs for f in w.files):
+            ctx.count("op:set-forward-with-unrecorded-older-file")
         was_partial = v in w.revs and (w.revs[v]["err"] or w.revs[v]["applied"] != w.revs[v]["total"])
         revs, _, _ = self.observe()
         bad = w.set_check(v, revs)
@@ -261,9 +265,7 @@ class Runner:
             return  # handled by the caller (out of domain)
         m = L.pending(w.file_list(), w.rev_list(), "linear", None, False, w.dirty())
         want = [f for f, ck in w.file_list() if not ck and f > v]
-        if m["kind"] == "nonlinear":
-            self.viol("set|file-below-target-still-out-of-order", "after `migrate set %s` the files %r (<= %s) are still not recorded: they are reported out of order / run by a non-linear apply although set is documented to consider every migration up to and including the version applied (revisions %r)" % (
-                v, m["ooo"], v, w.rev_list()), {"before": before, "observed_revisions": revs})
+        # (files below the last revision that were out of order before the set stay out of order: see set_check)
         if m["pending"] != want:
             self.viol("set|pending-after-set", "after `migrate set %s` the documented decision is pending=%r, want every migration file > %s: %r" % (v, m["pending"], v, want), {"before": before, "observed_revisions": revs})
 
